@@ -92,11 +92,15 @@ Combos == UNION {CombosOf(kf[1], kf[2]) : kf \in KindFlavours}
 \* extension names in lower and upper case (both are extensions: the prefix test folds case);
 \* unknown schema keywords, among them names starting with "$" (draft-06 style)
 ExtNames == {"x-ext", "x-", "x-camelCase"}
-UnknownNames == {"unknownKeyword", "$comment", "$id", "xnot-ext", "-x-", "Definitions2"}
+UnknownNames == {"unknownKeyword", "$comment", "$id", "xnot-ext", "-x-", "Definitions2", ""}
+\* extension names that tools give a meaning to (the library itself reads x-order): the codec must carry them verbatim
+WellKnownExt == {"x-nullable", "x-order", "x-example", "x-deprecated", "x-omitempty"}
 Exts ==
   UNION {{Case("ext", <<>>, kf[1], kf[2], <<[name |-> n, vt |-> "any", cls |-> c]>>) : c \in Payloads, n \in {"x-ext"}}
           : kf \in {x \in KindFlavours : AdmitsExt(x[1], x[2])}}
   \cup UNION {{Case("ext", <<>>, kf[1], kf[2], <<[name |-> n, vt |-> "any", cls |-> "str"]>>) : n \in ExtNames \ {"x-ext"}}
+          : kf \in {x \in KindFlavours : AdmitsExt(x[1], x[2])}}
+  \cup UNION {{Case("ext", <<>>, kf[1], kf[2], <<[name |-> n, vt |-> "any", cls |-> c]>>) : n \in WellKnownExt, c \in {"true", "zero", "str"}}
           : kf \in {x \in KindFlavours : AdmitsExt(x[1], x[2])}}
   \cup {Case("ext", <<>>, "schema", "", <<[name |-> n, vt |-> "any", cls |-> c]>>) : c \in Payloads, n \in UnknownNames}
   \cup {Case("ext", <<>>, "schema", "", <<[name |-> "x-ext", vt |-> "any", cls |-> "str"],
@@ -194,6 +198,18 @@ OddCases ==
                  : kw \in UrlLike(kf[1], kf[2])}
           : kf \in KindFlavours}
 
+\* ---- odd member names in the maps of the vocabulary (not normal form: judged for totality, fixed point,
+\* determinism, look-ups): status codes that are numbers but not three digits, path keys without the
+\* leading slash, the empty name in every map
+OddRespKeys == {"-1", "-12", "+200", "007", "0x10", "1e2", "99999999999999999999", "", " 200", "2000"}
+OddPathKeys == {"", "nolead", "x-", "X-ext", "/", "//"}
+MapTyped(k, fl) == {kw \in Free(k, fl) : LET vt == VTypeOf(k, kw) IN Len(vt) > 4 /\ SubSeq(vt, 1, 4) = "map:"}
+OddKeyCases ==
+  {Case("oddkeys", <<>>, "responses", "", <<[name |-> n, vt |-> "kind:response", cls |-> "obj"]>>) : n \in OddRespKeys}
+  \cup {Case("oddkeys", <<>>, "paths", "", <<[name |-> n, vt |-> "kind:pathItem", cls |-> "obj"]>>) : n \in OddPathKeys}
+  \cup UNION {{Case("oddkeys", <<>>, kf[1], kf[2], <<[name |-> kw, vt |-> VTypeOf(kf[1], kw), cls |-> "mapEmptyKey"]>>) : kw \in MapTyped(kf[1], kf[2])}
+               : kf \in KindFlavours}
+
 \* ---- extension names in upper case: the meta-schema pattern ^x- does not admit them (not normal
 \* form), the library reads them as extensions; checked for determinism / fixed point only
 ExtCaseCases ==
@@ -206,7 +222,7 @@ ExtCaseCases ==
 \* they are checked for totality only
 CaseFoldCases == {[c EXCEPT !.fam = "casefold"] : c \in Singles}
 
-Export == (IF "odd" \in Families THEN OddCases \cup ExtCaseCases \cup CaseFoldCases ELSE {}) \cup
+Export == (IF "odd" \in Families THEN OddCases \cup ExtCaseCases \cup CaseFoldCases \cup OddKeyCases ELSE {}) \cup
           (IF "valid" \in Families THEN ValidCases ELSE {}) \cup
           (IF "payload" \in Families THEN PayloadCases ELSE {}) \cup
           (IF "single" \in Families THEN Singles ELSE {})
